@@ -1,4 +1,5 @@
 import RedactVerif.Props.L2
+import RedactVerif.Props.FactsReset
 /-
 C12 — a print call's result depends only on its own arguments.
 
